@@ -856,6 +856,16 @@ func (vc *VC) specCall(env *Env, x *SCall) (Term, types.Type) {
 		}
 		arr := vc.get(env.st, name, casSort)
 		return Select(Select(arr, Root(p)), PathOf(p)), boolT
+	case "locked", "lockcount":
+		need(1)
+		if !vc.trackLocks {
+			env.fail("%s used but lock tracking is off", id.Name)
+		}
+		p, _ := vc.specExpr(env, x.Args[0])
+		if id.Name == "locked" {
+			return Select(Select(vc.get(env.st, "W_lockheld", lockHeldSort), Root(p)), PathOf(p)), boolT
+		}
+		return Select(Select(vc.get(env.st, "W_lockcnt", lockCntSort), Root(p)), PathOf(p)), types.Typ[types.Int]
 	case "allocated":
 		need(1)
 		v, vt := vc.specExpr(env, x.Args[0])
